@@ -38,6 +38,21 @@ def generate(rng, tier):
         if i % 4 == 0:
             t += ["SP", "0", G.fl(rng), G.fl(rng)]
         g["reused-encoder"].append("ED " + " ".join(t + G.program(rng, reset=True)))
+    g["getters-mid-path"] = []
+    for _ in range(300 if tier == "quick" else 6000):
+        t = G.program(rng, reset=True)
+        # insert CSel() / NSel() / LOD() reads at random places (they are reads: also inside an open path)
+        out = []
+        for tok_i, tok in enumerate(t):
+            out.append(tok)
+        pos = [i for i, tok in enumerate(out) if tok in ("SP", "Z")]
+        for _ in range(rng.range(1, 4)):
+            if pos:
+                i = rng.choice(pos)
+                k = i + (4 if out[i] == "SP" else 1)
+                out = out[:k] + [rng.choice(["rc", "rn", "rl"])] + out[k:]
+                pos = [i for i, tok in enumerate(out) if tok in ("SP", "Z")]
+        g["getters-mid-path"].append("ED " + " ".join(out))
     n = 3000 if tier == "quick" else 100000
     for _ in range(n):
         s = G.stream(rng, well_formed=True)
